@@ -1,9 +1,13 @@
 (** C01 — namespace operations behave like a reference filesystem.  Proved here: the exact out-of-space
     criterion of the allocator ("never refused while enough free clusters exist") and the allocator's
-    soundness.  The refinement of whole programs to the reference filesystem (C01_refine) is NOT proved;
-    it is checked on the implementation against fs.memoryfs and tied to the model by write logs. *)
-From Coq Require Import ZArith List Bool Sorted.
-From PyFatV Require Import Base.Bytes Base.PyEnv Gen.Pure Model.Codec Model.Dir Model.FS Proofs.FatTable.
+    soundness; and one step of the refinement, through the device: an entry with a long name appended to a directory
+    is — after the directory has been rewritten (growing if need be) and read back — found under that name and listed
+    under exactly that name, next to the entries that were there (C01_created_entry_is_found), and the lookup of every
+    name the new entry does not match is unchanged (C01_other_lookups_unchanged).  The refinement of whole programs to
+    the reference filesystem (C01_refine: path traversal over several directories, removal, aliases, the short-name
+    side) is NOT proved; it is checked on the implementation against fs.memoryfs and tied to the model by write logs. *)
+From Coq Require Import ZArith List Bool Sorted Lia FMapPositive.
+From PyFatV Require Import Base.Bytes Base.PyEnv Gen.Pure Model.Codec Model.Dir Model.FS Proofs.FatTable Proofs.Names Proofs.Device Proofs.DirCodec Proofs.DirState Proofs.Chains Proofs.Namespace.
 Import ListNotations.
 Open Scope Z_scope.
 
@@ -22,5 +26,59 @@ Theorem C01_scan_count : forall fat t maxc fuel i need,
 Proof. exact alloc_scan_count. Qed.
 Print Assumptions C01_scan_count.
 
+Theorem C01_created_entry_is_found : forall s c es0 e0 u sfn n s' ch,
+  dev_ok (s_dev s) -> geom_ok s -> vt (ft s) -> 0 <= s_hint s -> c <> -1 ->
+  chain s c = (ch, true) -> Forall (inside s) ch -> vol_ok s ->
+  Forall entry_ok es0 -> Forall unit_ok u -> 1 <= lenZ u <= 255 -> n_u n = u ->
+  let e := set_lfn e0 (Some (make_lfn u sfn)) in
+  entry_ok e -> is_special e = false -> is_volid e = false ->
+  search_entry (map canon es0) n = None ->
+  write_dir s c (map canon es0 ++ [e]) = Ok s' ->
+  read_dir s' c = Ok (map canon es0 ++ [canon e]) /\
+  search_entry (map canon es0 ++ [canon e]) n = Some (canon e) /\
+  shown_name (canon e) = NLong u.
+Proof. exact created_entry_is_found. Qed.
+Print Assumptions C01_created_entry_is_found.
+Theorem C01_other_lookups_unchanged : forall es x m, name_matches m x = false -> name_matches_upper m x = false ->
+  search_entry (es ++ [x]) m = search_entry es m.
+Proof. exact lookup_of_other_names_unchanged. Qed.
+Print Assumptions C01_other_lookups_unchanged.
+
 (* C01_refine (not proved): for all programs over names satisfying names_ok, results and final tree of the model
    equal those of the reference filesystem. *)
+
+(** non-vacuity: "new.txt" created in the one-cluster directory of C03's example volume, next to "hi there.txt12" *)
+From PyFatV Require Import Properties.C03.
+Definition ex_u2 : list Z := [110;101;119;46;116;120;116].
+Definition ex_sfn2 : list Z := [78;69;87;32;32;32;32;32;84;88;84].
+Definition ex_n2 : namerec := mkName ex_u2 None None [] [] false.
+Definition ex_e02 : dirent := mkDirent ex_sfn2 32 0 0 1 2 3 0 4 5 0 0 None.
+Definition ex_e2 : dirent := set_lfn ex_e02 (Some (make_lfn ex_u2 ex_sfn2)).
+Definition ex_created : st := match write_dir ex_st 2 (map canon [ex_ent] ++ [ex_e2]) with Ok s => s | Err _ => ex_st end.
+Example C01_created_example :
+  write_dir ex_st 2 (map canon [ex_ent] ++ [ex_e2]) = Ok ex_created /\
+  search_entry (map canon [ex_ent]) ex_n2 = None /\
+  read_dir ex_created 2 = Ok (map canon [ex_ent] ++ [canon ex_e2]) /\
+  search_entry (map canon [ex_ent] ++ [canon ex_e2]) ex_n2 = Some (canon ex_e2) /\
+  shown_name (canon ex_e2) = NLong ex_u2.
+Proof.
+  assert (E : write_dir ex_st 2 (map canon [ex_ent] ++ [ex_e2]) = Ok ex_created) by (vm_compute; reflexivity).
+  assert (Hnone : search_entry (map canon [ex_ent]) ex_n2 = None) by (vm_compute; reflexivity).
+  split; [exact E|]. split; [exact Hnone|].
+  assert (Hu : Forall unit_ok ex_u2) by (unfold ex_u2; repeat constructor; unfold unit_ok; lia).
+  assert (Hl : 1 <= lenZ ex_u2 <= 255) by (vm_compute; split; discriminate).
+  assert (He : entry_ok ex_e2).
+  { split.
+    - unfold sentry_ok, short_ok. cbn. repeat split; try lia; discriminate.
+    - cbn [d_lfn ex_e2 set_lfn ex_e02 d_name]. apply make_lfn_ok; assumption. }
+  assert (G : geom_ok ex_st) by (vm_compute; repeat split; try reflexivity; discriminate).
+  assert (Hv : vt (ft ex_st)) by (left; vm_compute; reflexivity).
+  assert (Hh : 0 <= s_hint ex_st) by (vm_compute; discriminate).
+  assert (Hc : chain ex_st 2 = ([2], true)) by (vm_compute; reflexivity).
+  assert (I : Forall (inside ex_st) [2]) by (constructor; [vm_compute; split; discriminate|constructor]).
+  assert (Hes : Forall entry_ok [ex_ent]) by (constructor; [apply ex_ent_ok|constructor]).
+  assert (Hn2 : 2 <> -1) by discriminate.
+  assert (Hsp : is_special ex_e2 = false) by (vm_compute; reflexivity).
+  assert (Hvi : is_volid ex_e2 = false) by (vm_compute; reflexivity).
+  exact (created_entry_is_found ex_st 2 [ex_ent] ex_e02 ex_u2 ex_sfn2 ex_n2 ex_created [2] dev_ok_empty G Hv Hh Hn2 Hc I ex_vol_ok Hes Hu Hl eq_refl He Hsp Hvi Hnone E).
+Qed.
